@@ -353,52 +353,64 @@ fn main() {
 
   // ---- 1. token soups ----
   let max_len = if run.quick() { 4 } else { 5 };
-  let mut soups: Vec<String> = vec![];
   let all: Vec<&str> = CLASSES.iter().chain(RARE.iter()).copied().collect();
+  let mut n_soups = 0usize;
+  let mut soup_samples: Vec<String> = vec![];
   for len in 1..=max_len {
     // full alphabet up to length 2 (quick) / 3 (thorough); common classes beyond
     let alphabet: &[&str] = if len <= max_len - 1 { &all } else { &CLASSES };
-    let mut idx = vec![0usize; len];
-    loop {
-      let body = idx.iter().map(|i| alphabet[*i]).collect::<Vec<_>>().join(" ");
-      for (pre, post) in CONTEXTS {
-        soups.push(format!("{pre}{body}{post}"));
-      }
-      let mut k = len;
+    // one chunk per first token: all soups of one length together would not fit into memory
+    for first in 0..alphabet.len() {
+      let mut soups: Vec<String> = vec![];
+      let mut idx = vec![0usize; len];
+      idx[0] = first;
       loop {
-        if k == 0 {
-          break;
+        let body = idx.iter().map(|i| alphabet[*i]).collect::<Vec<_>>().join(" ");
+        for (pre, post) in CONTEXTS {
+          soups.push(format!("{pre}{body}{post}"));
         }
-        k -= 1;
-        idx[k] += 1;
-        if idx[k] < alphabet.len() {
-          break;
+        // next combination of the positions 1..len (position 0 is fixed)
+        let mut k = len;
+        let mut done = false;
+        loop {
+          if k <= 1 {
+            done = true;
+            break;
+          }
+          k -= 1;
+          idx[k] += 1;
+          if idx[k] < alphabet.len() {
+            break;
+          }
+          idx[k] = 0;
         }
-        idx[k] = 0;
-        if k == 0 {
-          k = usize::MAX;
+        if done {
           break;
         }
       }
-      if k == usize::MAX {
-        break;
+      n_soups += soups.len();
+      if soup_samples.len() < 4 && first == alphabet.len() / 2 {
+        soup_samples.push(soups[soups.len() / 2].clone());
       }
+      soups.par_iter().for_each(|t| {
+        let r = timed(t);
+        if let Ok(_) = &r {
+          distinct_err_shapes.lock().unwrap().insert(quick_hash(&synt::tokenize(t).iter().map(|x| x.kind).collect::<Vec<_>>()));
+        }
+        report(t, "token soup", r)
+      });
     }
   }
-  space.insert("token_soups".into(), json!(soups.len()));
-  soups.par_iter().for_each(|t| {
-    let r = timed(t);
-    if let Ok(_) = &r {
-      distinct_err_shapes.lock().unwrap().insert(quick_hash(&synt::tokenize(t).iter().map(|x| x.kind).collect::<Vec<_>>()));
-    }
-    report(t, "token soup", r)
-  });
+  space.insert("token_soups".into(), json!(n_soups));
 
   // ---- 2. single-edit neighbourhood of corpus files ----
   let files = corpus::all_files();
   let files = if run.quick() { corpus::smallest(files, 20) } else { files };
-  let mut edits: Vec<(String, String)> = vec![];
+  // (one file at a time: the variants of all files together would not fit into memory)
+  let mut n_edits = 0usize;
+  let mut edit_samples: Vec<(String, String)> = vec![];
   for f in &files {
+    let mut edits: Vec<(String, String)> = vec![];
     let toks = synt::tokenize(&f.text);
     for (i, t) in toks.iter().enumerate() {
       let del = format!("{}{}", &f.text[..t.start], &f.text[t.end..]);
@@ -423,10 +435,14 @@ fn main() {
       }
       last = t.start;
     }
+    n_edits += edits.len();
+    if edit_samples.len() < 3 && !edits.is_empty() {
+      edit_samples.push(edits[edits.len() / 2].clone());
+    }
+    edits.par_iter().for_each(|(t, origin)| report(t, origin, timed(t)));
   }
-  space.insert("single_edit_variants".into(), json!(edits.len()));
+  space.insert("single_edit_variants".into(), json!(n_edits));
   space.insert("files_edited".into(), json!(files.len()));
-  edits.par_iter().for_each(|(t, origin)| report(t, origin, timed(t)));
 
   // ---- 3. multi-module soups ----
   let pairs: Vec<(usize, usize)> =
@@ -532,10 +548,10 @@ fn main() {
     report(t, &format!("rendering: {what}"), r)
   });
 
-  let samples: Vec<Value> = spaced_samples(&soups, 3)
+  let samples: Vec<Value> = spaced_samples(&soup_samples, 3)
     .into_iter()
     .map(|s| json!({"kind":"token soup","input": s}))
-    .chain(spaced_samples(&edits, 3).into_iter().map(|(t, o)| json!({"kind": o, "input": t.chars().take(300).collect::<String>()})))
+    .chain(edit_samples.iter().map(|(t, o)| json!({"kind": o, "input": t.chars().take(300).collect::<String>()})))
     .collect();
   let n_shapes = distinct_err_shapes.lock().unwrap().len();
   run.finish(
